@@ -730,6 +730,7 @@ func registerTomlStubs(ex *Exec) {
 		empty := smt.Eq(data.Len, bv64(0))
 		okAny := empty
 		isDecodeErr := smt.And(smt.Not(isTok), smt.Not(empty))
+		isStrictErr := smt.False
 		known := smt.False
 		for i, reg := range ex.DecodedList {
 			ci := smt.And(isTok, smt.Eq(b(1), smt.Const(8, uint64(i))))
@@ -737,6 +738,7 @@ func registerTomlStubs(ex *Exec) {
 			oki := smt.And(ci, smt.Eq(reg.kind, smt.Const(8, 0)))
 			okAny = smt.Or(okAny, oki)
 			isDecodeErr = smt.Or(isDecodeErr, smt.And(ci, smt.Eq(reg.kind, smt.Const(8, 1))))
+			isStrictErr = smt.Or(isStrictErr, smt.And(ci, smt.Eq(reg.kind, smt.Const(8, 2))))
 			src, ok := reg.val.(*PtrV)
 			if !ok {
 				panic(unsupported("registered decoded value is not a pointer"))
@@ -749,16 +751,20 @@ func registerTomlStubs(ex *Exec) {
 		isDecodeErr = smt.Or(isDecodeErr, smt.And(isTok, smt.Not(known)))
 		errOp := ex.newOpaque("error")
 		errOp.Data["decodeErr"] = isDecodeErr
+		errOp.Data["strictErr"] = isStrictErr
 		return mergeV(smt.Not(okAny), &IfaceV{T: nil, V: errOp}, Nil)
 	}
 	decode := func(ex *Exec, st *State, site ssa.Instruction, target Value) Value {
 		// the library either fails or leaves an arbitrary value of the target type: the harness supplies that value
 		fail := ex.freshBool("toml_decode_fails")
 		var isDecodeErr *smt.Term = ex.freshBool("toml_error_is_decode_error")
+		var isStrictErr *smt.Term = smt.And(smt.Not(isDecodeErr), ex.freshBool("toml_error_is_strict_missing_error"))
 		if ex.DecodeFailKind != nil {
-			// the harness chose: 0 decodes, 1 syntax/type error (*toml.DecodeError), 2 strict-mode error (unknown field)
+			// the harness chose: 0 decodes, 1 syntax error (*toml.DecodeError), 2 unknown field
+			// (*toml.StrictMissingError), 3 a value of the wrong kind (a plain error, neither of the two)
 			fail = smt.Not(smt.Eq(ex.DecodeFailKind, smt.Const(8, 0)))
 			isDecodeErr = smt.Eq(ex.DecodeFailKind, smt.Const(8, 1))
+			isStrictErr = smt.Eq(ex.DecodeFailKind, smt.Const(8, 2))
 		}
 		if ex.Decoded == nil {
 			panic(unsupported("toml decode without a registered decoded value (verifrt.TOMLBytes)"))
@@ -782,6 +788,7 @@ func registerTomlStubs(ex *Exec) {
 		})
 		errOp := ex.newOpaque("error")
 		errOp.Data["decodeErr"] = isDecodeErr
+		errOp.Data["strictErr"] = isStrictErr
 		return mergeV(fail, &IfaceV{T: nil, V: errOp}, Nil)
 	}
 	S["errors.As"] = func(ex *Exec, st *State, site ssa.Instruction, fn *ssa.Function, args []Value) Value {
@@ -791,8 +798,11 @@ func registerTomlStubs(ex *Exec) {
 			panic(unsupported("errors.As target"))
 		}
 		tp, ok := tgt.V.(*PtrV)
-		if !ok || tgt.T == nil || !strings.Contains(tgt.T.String(), "DecodeError") {
-			panic(unsupported("errors.As with a target other than **toml.DecodeError"))
+		field, tag := "decodeErr", "tomlDecodeError"
+		if ok && tgt.T != nil && strings.Contains(tgt.T.String(), "StrictMissingError") {
+			field, tag = "strictErr", "tomlStrictMissingError"
+		} else if !ok || tgt.T == nil || !strings.Contains(tgt.T.String(), "DecodeError") {
+			panic(unsupported("errors.As with a target other than **toml.DecodeError / **toml.StrictMissingError"))
 		}
 		var is *smt.Term = smt.False
 		var walk func(e Value) *smt.Term
@@ -805,7 +815,7 @@ func registerTomlStubs(ex *Exec) {
 					return smt.Ite(ch.C, walk(&IfaceV{T: x.T, V: ch.A}), walk(&IfaceV{T: x.T, V: ch.B}))
 				}
 				if op, ok := x.V.(*Opaque); ok {
-					if d, ok := op.Data["decodeErr"].(*smt.Term); ok {
+					if d, ok := op.Data[field].(*smt.Term); ok {
 						return d
 					}
 					if w, ok := op.Data["wrapped"]; ok {
@@ -816,9 +826,25 @@ func registerTomlStubs(ex *Exec) {
 			return smt.False
 		}
 		is = walk(args[0])
-		de := ex.newOpaque("tomlDecodeError")
+		de := ex.newOpaque(tag)
 		ex.guarded(st, is, func(st *State) { ex.store(st, site, tp, de) })
 		return is
+	}
+	for _, m := range []string{"String", "Error", "Errors"} {
+		m := m
+		S["(*github.com/pelletier/go-toml/v2.StrictMissingError)."+m] = func(ex *Exec, st *State, site ssa.Instruction, fn *ssa.Function, args []Value) Value {
+			return ex.withChoice(st, args[0], func(st *State, r Value) Value {
+				if _, isNil := r.(*NilV); isNil {
+					ex.outcome("panic", "nil pointer dereference (method "+m+" of a nil *toml.StrictMissingError)", site, st.pc)
+					st.kill()
+					return nil
+				}
+				if m == "Errors" {
+					return ex.zeroResult(fn)
+				}
+				return ConcreteStr("<strict missing error>")
+			})
+		}
 	}
 	for _, m := range []string{"Position", "Key", "String", "Error"} {
 		m := m
